@@ -30,6 +30,7 @@ import (
 var (
 	repoDir  = envOr("VERIF_REPO", "/repo")
 	verifDir = envOr("VERIF_DIR", "/verif")
+	outDir   = envOr("VERIF_OUT", envOr("VERIF_DIR", "/verif")) // evidence/ and replays/ go here
 )
 
 func envOr(k, d string) string {
@@ -526,7 +527,7 @@ func runCheck(chk *Check, tier, replay string, keep bool, only string) int {
 		seenSig[v.Sig] = true
 		nviol++
 		rc = 1
-		dir := filepath.Join(verifDir, "replays", chk.ID)
+		dir := filepath.Join(outDir, "replays", chk.ID)
 		_ = os.MkdirAll(dir, 0o755)
 		vb, _ := json.MarshalIndent(v, "", " ")
 		h := sha1.Sum([]byte(v.Sig + v.Unit))
@@ -610,7 +611,7 @@ func writeEvidence(chk *Check, tier string, seed int, m *Result, units []map[str
 		"violations":  nviol,
 	}
 	b, _ := json.MarshalIndent(ev, "", " ")
-	dir := filepath.Join(verifDir, "evidence")
+	dir := filepath.Join(outDir, "evidence")
 	_ = os.MkdirAll(dir, 0o755)
 	if err := os.WriteFile(filepath.Join(dir, chk.ID+".json"), b, 0o644); err != nil {
 		die(2, "evidence: %v", err)
